@@ -22,3 +22,49 @@ Theorem C13_repair_labels : forall (c c' : code) (n : N),
   /\ (forall l, In l (all_labels c) -> In l (all_labels c'))
   /\ (forall t, In t (branch_targets c') -> In t (branch_targets c) \/ In t (all_labels c')).
 Proof. exact cb_labels. Qed.
+
+From CC Require Import Model.AsmSel Model.InlineRename Model.WfCode Proofs.AsmLegalFacts Proofs.InlineFacts.
+
+(** whenever asm() accepts a load / store / ALU / compare mnemonic with a data operand, the 6502
+    has an addressing mode for it (the explicit "Can't use X addressing on X operation"-style
+    errors do their job); the only emitted-but-unencodable cells are stores whose operand
+    degenerates to an immediate ("#0" high byte), excluded by the last hypothesis and shown never
+    to be requested by the corr-S pass *)
+Theorem C13_asm_sel_legal : forall sch m e high m' sg em,
+  data_mnemonic m = true -> data_operand e = true ->
+  asm_sel sch m e high = AEmit m' sg em ->
+  (AsmSel.is_st m = true -> shape_of (operand_of (e_op em)) <> ShImm) ->
+  resolve m' (shape_of (operand_of (e_op em))) (popnd_zp e) <> None.
+Proof. exact asm_sel_legal. Qed.
+
+(** read-modify-write mnemonics: legal exactly for memory, memory+X (and the accumulator for
+    shifts); asm() has no error arm for the others: a finding recorded as Example below *)
+Theorem C13_asm_sel_legal_rmw : forall sch m e high m' sg em,
+  rmw_mnemonic m = true -> rmw_operand e = true ->
+  asm_sel sch m e high = AEmit m' sg em ->
+  shape_of (operand_of (e_op em)) <> ShImm ->
+  resolve m' (shape_of (operand_of (e_op em))) (popnd_zp e) <> None.
+Proof. exact asm_sel_legal_rmw. Qed.
+
+(** inlining: the suffixing of labels is injective in (counter, label) ... *)
+Theorem C13_suffix_inj : forall n1 n2 l1 l2,
+  suffix_of n1 l1 = suffix_of n2 l2 -> n1 = n2 /\ l1 = l2.
+Proof. exact suffix_of_inj. Qed.
+
+(** ... so an inlined block keeps labels unique for a fresh counter ... *)
+Theorem C13_push_code_nodup : forall (dst body : code) (n : N),
+  NoDup (all_labels dst) -> NoDup (all_labels body) ->
+  ~ In ".endof"%string (all_labels body) ->
+  (forall l, In l (all_labels dst) -> forall l0, l <> suffix_of n l0) ->
+  NoDup (all_labels (push_code dst body n)).
+Proof. exact push_code_nodup. Qed.
+
+(** ... repeated and nested expansions with distinct counters included ... *)
+Definition C13_push_code_twice_nodup := push_code_twice_nodup.
+
+(** ... and every branch/JMP of the inlined body (the return jump included) lands inside the block *)
+Theorem C13_push_code_closed : forall (dst body : code) (n : N),
+  (forall t, In t (local_targets body) -> In t (all_labels body) \/ t = ".endof"%string) ->
+  forall t, In t (local_targets (map (rename_line n) body)) ->
+            In t (all_labels (map (rename_line n) body ++ [Lbl (".endofinline" ++ string_of_N n)%string])).
+Proof. exact push_code_closed. Qed.
